@@ -44,6 +44,9 @@ ChecksBig(e) == {
   <<"decode-roundtrip", BigDec(e.dec, e)>>,
   <<"stream-decode-roundtrip", BigDec(e.sdec, e)>>,
   \* the string entry points of the streaming API (WriteString / ReadString) carry the same bytes
+  \* the same encoding cut short is refused by both decoders and by Skip, however much of it arrived
+  <<"truncated-encoding-refused", Has(e, "truncs") => \A i \in 1..Len(e.truncs) :
+        e.truncs[i].dec # "none" /\ e.truncs[i].sdec # "none" /\ e.truncs[i].skip # "none">>,
   <<"stream-writer-string-bytes", Has(e, "sws") => (e.swserr = "none" /\ BigSide(e.sws, e))>>,
   <<"stream-reader-string-roundtrip", Has(e, "sdecs") => BigDec(e.sdecs, e)>> }
 
